@@ -129,7 +129,7 @@ def run_witness(k):
         return None, str(ex)
 
 
-NOT_WITNESSES = {'w_edge_probe', 'w_findroot_accuracy'}      # a probe of excluded requests; the witness of the recorded known finding
+NOT_WITNESSES = {'w_edge_probe'}      # a probe of requests that the contracts exclude by precondition
 
 
 def drivers_of(pid):
